@@ -105,6 +105,7 @@ type vfWorld struct {
 	decLog   []string
 	obsRef   vivid.ActorRef
 	stopped  atomic.Bool
+	stopping atomic.Bool
 	spawnErr []string
 	badInst  map[int]bool // instances whose ActorOf returned an error (must never receive anything)
 	prelaunchSeen map[string]int
@@ -227,7 +228,10 @@ func (w *vfWorld) stop() error {
 
 // ---- observer: one actor subscribed to every actor-level event type ---------------------------
 
-type vfObserver struct{ w *vfWorld }
+type vfObserver struct {
+	w    *vfWorld
+	late bool // second observer living under a held parent: records only dead letters, tagged dl2
+}
 
 var vfObservedEvents = []any{
 	ves.DeathLetterEvent{}, ves.ActorKilledEvent{}, ves.ActorRestartedEvent{}, ves.ActorRestartingEvent{}, ves.ActorFailedEvent{},
@@ -267,11 +271,21 @@ func (o *vfObserver) OnReceive(ctx vivid.ActorContext) {
 	w := o.w
 	switch m := ctx.Message().(type) {
 	case *vivid.OnLaunch:
+		if o.late {
+			ctx.EventStream().Subscribe(ctx, ves.DeathLetterEvent{})
+			return
+		}
 		for _, e := range vfObservedEvents {
 			ctx.EventStream().Subscribe(ctx, e)
 		}
 	case ves.DeathLetterEvent:
 		tag, id := vfMsgTag(m.Envelope.Message())
+		if o.late {
+			if w.stopping.Load() {
+				w.add(vfEv{Kind: "obs2", Path: "", Msg: "dl2:" + tag, ID: id})
+			}
+			return
+		}
 		rp := "<nil>"
 		if m.Envelope.Receiver() != nil {
 			rp = m.Envelope.Receiver().GetPath()
@@ -325,9 +339,13 @@ type vfSpec struct {
 	PrelaunchFailFirst bool
 	Subs          []int         // stream event types subscribed at launch
 	Loop          time.Duration // Loop job to self started at launch
+	Once          time.Duration // harmless Once job to self at launch (leaves a fired one-shot entry behind)
 	OnceFail      time.Duration // Once job to self at launch whose delivery fails (first incarnation only)
 	BecomeAt      int           // after n user messages install a 'became' behaviour; 0 = never
 	TrackStash    bool          // log StashCount after every user message
+	LateObserver  bool          // spawn a second dead-letter observer as a child (stays alive while this actor is held during Stop)
+	SpawnOnKill   bool          // spawn a child "<name>k" from the OnKill handler (parent already terminating)
+	SpawnOnChildDead bool       // spawn a child "<name>d" from the handler of a child's OnKilled
 }
 
 type vfActor struct {
@@ -474,7 +492,14 @@ func (a *vfActor) handle(ctx vivid.ActorContext, beh string) {
 	switch m := msg.(type) {
 	case *vivid.OnLaunch:
 		a.onLaunch(ctx)
+	case *vivid.OnKill:
+		if a.spec.SpawnOnKill {
+			a.spawn(ctx, &vfSpec{Name: a.spec.Name + "k"})
+		}
 	case *vivid.OnKilled:
+		if a.spec.SpawnOnChildDead && m.Ref != nil && !m.Ref.Equals(ctx.Ref()) && !strings.HasSuffix(m.Ref.GetPath(), "d") {
+			a.spawn(ctx, &vfSpec{Name: a.spec.Name + "d"})
+		}
 		if a.spec.FailChildDead != "" && !a.childDeadFailed && m.Ref != nil && strings.HasSuffix(m.Ref.GetPath(), "/"+a.spec.FailChildDead) {
 			a.childDeadFailed = true
 			a.fail(ctx, "child-dead")
@@ -526,11 +551,18 @@ func (a *vfActor) onLaunch(ctx vivid.ActorContext) {
 	if a.spec.Loop > 0 {
 		_ = ctx.Scheduler().Loop(ctx.Ref(), a.spec.Loop, &vfSched{Ref: "loop", ID: -1}, vivid.WithSchedulerReference("vfloop"))
 	}
+	if a.spec.Once > 0 {
+		_ = ctx.Scheduler().Once(ctx.Ref(), a.spec.Once, &vfSched{Ref: "once", ID: -1}, vivid.WithSchedulerReference("vfonce"))
+		_ = ctx.Scheduler().Once(ctx.Ref(), 2*a.spec.Once, &vfSched{Ref: "once", ID: -1}, vivid.WithSchedulerReference("vfonce2"))
+	}
 	if a.spec.OnceFail > 0 && inc == 1 {
 		_ = ctx.Scheduler().Once(ctx.Ref(), a.spec.OnceFail, &vfSched{Ref: "oncefail", ID: -1}, vivid.WithSchedulerReference("vfoncefail"))
 	}
 	for _, cs := range a.spec.Children {
 		a.spawn(ctx, cs)
+	}
+	if a.spec.LateObserver {
+		_, _ = ctx.ActorOf(&vfObserver{w: w, late: true}, vivid.WithActorName("obs2"))
 	}
 	_ = w
 	if a.spec.FailLaunchInc > 0 && inc == a.spec.FailLaunchInc {
@@ -942,8 +974,17 @@ func (w *vfWorld) oracleKillOrder() (v []vfViol) {
 			continue // a zombie parent runs no user code: its behaviour cannot record the notice
 		}
 		got := notice[parent][p]
-		watch := 0
-		_ = watch
+		// a notice that reached the parent after the parent itself had terminated is dead-lettered: it still counts,
+		// but only a terminated parent may have dead-lettered notices
+		dlN := 0
+		for _, e := range log {
+			if e.Kind == "obs" && e.Msg == "dl:D:"+p && e.Path == parent {
+				dlN++
+			}
+		}
+		if dlN > 0 && len(killedAt[parent]) > 0 {
+			got += dlN
+		}
 		if got > len(ts) {
 			v = append(v, vfViol{"c06-parent-notified-twice", "OnKilled", fmt.Sprintf("%s received %d OnKilled(%s) for %d termination(s)", parent, got, p, len(ts))})
 		}
